@@ -307,9 +307,77 @@ class ForceForms(Suite):
         return repr(case)
 
 
+class NameModeMembers(Suite):
+    """MultiChain(configs, parameter_mode=False): every member has the tasks, values and (config-name based) storage
+    locations of the standalone chain built with parameter_mode=False from the same config - for separate config files
+    and for the parts of one multi-config file.  Runtime check only (the model is parameter mode)."""
+    name = 'name_mode_members'
+    model = ''
+
+    def gen(self, rng, tier):
+        return [dict(layout=l, xs=xs, first=f) for l in ('files', 'parts') for xs in ([1, 2], [3, 3], [1, 2, 1])
+                for f in ('multi', 'alone')]
+
+    def run_impl(self, case):
+        from taskchain import Config, MultiChain
+        from .. import pipeline as pl
+        classes = [dict(K(0, 'Src', params=[P('x')]), name='src'), dict(K(1, 'Dst', meta_inputs=[{'cls': 0}]), name='dst')]
+        xs = case['xs']
+        if case['layout'] == 'files':
+            files = {f'c{i}.json': {'tasks': ['@M.*'], 'x': x} for i, x in enumerate(xs)}
+            refs = [f'c{i}.json' for i in range(len(xs))]
+        else:
+            files = {'multi.json': {'configs': {f'p{i}': dict({'tasks': ['@M.*'], 'x': x}, **({'main_part': True} if i == 0 else {}))
+                                                for i, x in enumerate(xs)}}}
+            refs = [f'multi.json#p{i}' for i in range(len(xs))]
+        with pl.workspace(dict(classes=classes, files=files)) as (d, mod):
+            def see(ch):
+                return {n: dict(path=str(t.data_path), value=pl.to_spec(t.value)) for n, t in ch.tasks.items()}
+
+            def multi():
+                mc = MultiChain([Config(Path('data'), r) for r in refs], parameter_mode=False)
+                return [see(ch) for _, ch in sorted(mc.chains.items())]
+
+            def alone():
+                return [see(Config(Path('data'), r).chain(parameter_mode=False)) for r in sorted(refs, key=lambda r: Config(Path('data'), r).name)]
+            if case['first'] == 'multi':
+                m = multi()
+                a = alone()
+            else:
+                a = alone()
+                m = multi()
+            return dict(multi=m, alone=a, runs=pl.runs_started())
+
+    def oracle(self, case, obs):
+        if 'unexpected_exception' in obs:
+            return f'unexpected exception {obs["unexpected_exception"]}: {obs["text"]}'
+        for i, (m, a) in enumerate(zip(obs['multi'], obs['alone'])):
+            for n in a:
+                if n not in m:
+                    return f'{case}: member {i} lacks task {n}'
+                if m[n]['path'] != a[n]['path']:
+                    return (f'{case}: task {n} of member {i} is stored at {m[n]["path"]}, the standalone name-mode chain of the same '
+                            f'config stores it at {a[n]["path"]}')
+                if json.dumps(m[n]['value'], sort_keys=True) != json.dumps(a[n]['value'], sort_keys=True):
+                    return f'{case}: task {n} of member {i} yields {m[n]["value"]}, standalone {a[n]["value"]}'
+                want_x = repr(case['xs'][i])
+                if n == 'src' and a[n]['value'].get('p', {}).get('x') != want_x:
+                    return f'{case}: src of config {i} was computed with x={a[n]["value"].get("p")}, configured {want_x}'
+        n_loc = len(set(case['xs'])) if False else len(case['xs'])
+        if obs['runs'] != 2 * n_loc:
+            return f'{case}: {obs["runs"]} runs for {n_loc} configs of two tasks (one run per task and config name)'
+        return None
+
+    def nontrivial(self, case, obs):
+        return True
+
+    def key(self, case):
+        return repr(case)
+
+
 class C13(Prop):
     pid = 'C13'
-    suites = [Multi(), ObjectUses(), DataDirs(), ForceForms()]
+    suites = [Multi(), ObjectUses(), DataDirs(), ForceForms(), NameModeMembers()]
     assumptions = ['config names within one MultiChain are distinct (the constructor asserts it)']
 
 
